@@ -633,7 +633,7 @@ class UBXMessage:
             # 'type' attribute - the first byte of the payload
             if self._ubxClass == b"\x13" and self._ubxID != b"\x80":
                 umsg_name = UBX_MSGIDS[
-                    self._ubxClass + self._ubxID + self._payload[0:1]
+                    self._ubxClass + self._ubxID + (self._payload or b"")[0:1]
                 ]
             else:
                 umsg_name = UBX_MSGIDS[self._ubxClass + self._ubxID]
